@@ -118,17 +118,40 @@ class SModel:
 class Model:
     name = 'c19'
 
-    def __init__(self, segmented: bool = False) -> None:
-        self.params = {'segmented': segmented}
+    def __init__(self, segmented: bool = False, kind: str = 'dict') -> None:
+        self.params = {'segmented': segmented, 'kind': kind}
         self.segmented = segmented
+        # 'maildir': the backend whose store holds one script, named
+        # 'active' (pymap.filter.SingleFilterSet over <user dir>/dovecot.sieve)
+        self.kind = kind
         self._alpha = build_alphabet()
+        if kind == 'maildir':
+            extra = []
+            for e in self._alpha:
+                if e.get('n') == 'a' or e.get('m') == 'a':
+                    # the same events for the one name this store knows
+                    e2 = dict(e)
+                    e2['name'] = e['name'].replace("'a'", "'active'")
+                    e2['line'] = e['line'].replace(b'"a"', b'"active"') \
+                        .replace(b'{1+}\r\na ', b'{6+}\r\nactive ')
+                    if e2.get('n') == 'a':
+                        e2['n'] = 'active'
+                    if e2.get('m') == 'a':
+                        e2['m'] = 'active'
+                    extra.append(e2)
+            self._alpha += extra
 
     def alphabet(self):
         return self._alpha
 
     def new(self):
-        w = DictWorld(users={'alice': ('pw', ()), 'bob': ('pw2', ())},
-                      tls_enabled=False)
+        if self.kind == 'maildir':
+            from ..worlds import MaildirWorld
+            w = MaildirWorld(layout='++', jail_cheap=True,
+                             users={'alice': ('pw', ()), 'bob': ('pw2', ())})
+        else:
+            w = DictWorld(users={'alice': ('pw', ()), 'bob': ('pw2', ())},
+                          tls_enabled=False)
         ctx = type('C', (), {})()
         ctx.world = w
         ctx.s = [w.connect(proto='sieve'), w.connect(proto='sieve')]
@@ -145,6 +168,18 @@ class Model:
 
     def stores(self, ctx):
         out = {}
+        if self.kind == 'maildir':
+            import os
+            from ..fsjail import unjailed
+            for u in ('alice', 'bob'):
+                path = os.path.join(ctx.world.user_dir(u), 'dovecot.sieve')
+                with unjailed():
+                    try:
+                        with open(path, 'rb') as f:
+                            out[u] = ({'active': f.read()}, 'active')
+                    except FileNotFoundError:
+                        out[u] = ({}, None)
+            return out
         for u in ('alice', 'bob'):
             fs = ctx.world.filter_set(u)
             if fs is None:
@@ -188,7 +223,9 @@ class Model:
         m: SModel = ctx.m
         c = e['c']
         out = []
-        site = e['name'] + ('@auth' if m.who[c] else '@noauth')
+        site = ('maildir:' if self.kind == 'maildir' else '') + \
+            e['name'] + ('@auth' if m.who[c] else '@noauth')
+        single = self.kind == 'maildir'
 
         def bad(rule, msg):
             out.append(Violation(rule, site, msg))
@@ -265,6 +302,12 @@ class Model:
                 if op == 'put':
                     if cond == 'OK':
                         sc[n] = e['d']
+                        if single and n == 'active':
+                            # the one script this store holds is the active
+                            # one by definition
+                            m.active[who] = n
+                    elif single and n != 'active':
+                        pass    # a one-script store may refuse other names
                     elif n != '' and e['dk'] in ('valid', 'valid2'):
                         bad('put-refused', f'{e["name"]} answered {cond} '
                             f'{status[-1]!r}')
@@ -290,7 +333,9 @@ class Model:
                             f'{want}')
                 elif op == 'setactive':
                     if n == '':
-                        if cond != 'OK':
+                        if cond != 'OK' and single:
+                            pass    # (cannot keep a script it does not run)
+                        elif cond != 'OK':
                             bad('setactive-clear', f'SETACTIVE "" -> {cond}')
                         else:
                             m.active[who] = None
@@ -310,6 +355,8 @@ class Model:
                         if cond == 'OK':
                             bad('delete-active-ok', f'{e["name"]}: the '
                                 f'active script was deleted')
+                            del sc[n]           # follow the implementation
+                            m.active[who] = None
                     elif cond != 'OK':
                         bad('delete-refused', f'{e["name"]} -> {cond}')
                     else:
@@ -321,7 +368,7 @@ class Model:
                             bad('rename-ok', f'{e["name"]} answered OK '
                                 f'(scripts {sorted(sc)})')
                     elif cond != 'OK':
-                        if b != '':
+                        if b != '' and not single:
                             bad('rename-refused', f'{e["name"]} -> {cond}')
                     else:
                         sc[b] = sc.pop(a)
@@ -444,9 +491,28 @@ def run(*, tier, seed, jobs, progress, opts):
     cov['transitions'] += c2['transitions']
     cov['traces_validated_against_impl'] += c2['transitions']
     res.violations += res2.violations
+    # the maildir backend's one-script store
+    m3 = Model(kind='maildir')
+    from ..worlds import scratch_parent
+    with scratch_parent():
+        res3 = bfs(m3, 3 if tier == 'quick' else 4, jobs=jobs, seed=seed,
+                   progress=progress)
+    if res3.errors:
+        print(res3.errors[0])
+        raise RuntimeError('harness error during exploration')
+    c3 = res3.coverage(m3)
+    cov['maildir'] = {k: c3[k] for k in ('states', 'transitions',
+                                         'depth_completed', 'alphabet_size')}
+    cov['states'] += c3['states']
+    cov['transitions'] += c3['transitions']
+    cov['traces_validated_against_impl'] += c3['transitions']
+    res.violations += res3.violations
     return finish(PROP, tier=tier, seed=seed, level='model_checking',
                   coverage=cov, violations=res.violations, t0=t0,
-                  assumptions=['dict backend filter store; two users',
+                  assumptions=['dict backend filter store; two users; maildir '
+                               'backend (one script, named active): names '
+                               'other than active, SETACTIVE "" and '
+                               'RENAMESCRIPT may be refused',
                                'PUTSCRIPT of a syntactically invalid script '
                                'or an empty name may be refused'])
 
